@@ -103,6 +103,12 @@ CHECKS["C12"] = dict(
    text="Three multi-module programs (accepted with cross-module recursive enums / generics / closures; rejected with errors in three modules; accepted with clashing class names and mutual imports): all n! allocation orders x all n! iteration orders of the source map with 1 and 16 workers, and worker counts 1..16 on two order pairs: identical verdict, byte-equal rendered diagnostics for the same allocation order (same multiset otherwise), and identical behaviour of every distinct emitted Wasm/TS artefact on node 22. The atomic temp-name counter shared by the parallel optimiser is model-checked with loom on the unmodified source (2 threads unbounded, 3 threads with preemption bound 3): every name ever handed out is distinct, also after sync_temp_counter.",
    note="Internal std HashMap seeds cannot be enumerated; they are varied on fresh threads (8 quick / 64 thorough runs per program) and reported separately. rayon itself is not loom-aware: the interleaving claim covers the shared counter, which the audit shows to be the only shared mutable state.",
    design_ref="DESIGN.md §5 C12")
+CHECKS["C18"] = dict(
+   category="model_checking",
+   technique="explicit-state BFS over collection values (tree shapes) of the real std sources executed by the reference interpreter, lock-step BTreeMap/BTreeSet/Vec model; discovery paths replayed as compiled driver programs on Wasm and TS (conformance)",
+   text="Map: BFS from Map.empty() over insert (2 values) / remove / update (3 functions) / filter (2 predicates) / map for keys {1,2,3} (quick) / {1..5} (thorough) and a wide key universe, states merged by full tree value; every state checked against a BTreeMap through the in-order contents and 20+ queries (get, containsKey, split per key, size, isEmpty, min/max(+Key), entries, keys, order-sensitive fold, forAll/exists/partition), all ordered pairs of the first 45/120 states through union, customizedUnion, merge, equal, compare. Set: every operation history of length <=3/4 over insert/remove/filter/map with union/intersection/diff/subset/disjoint/contains/fold/equal/fromList observations vs BTreeSet. List: every sequence of length <=3 through 14 operations vs Vec. Every BFS discovery path / history is also compiled by the real pipeline and run on Wasm and TS: output must equal the reference run's.",
+   note="refsem executes the std code (bound to tests/snapshot.txt); structural == mode. AVL shape facts are recorded, not asserted.",
+   design_ref="DESIGN.md §5 C18")
 NOT_YET = "check not built yet in this round (planned: see DESIGN.md §5)"
 
 hooks_commits = subprocess.run(["git","-C","/repo","log","--format=%H %s"],capture_output=True,text=True).stdout.splitlines()
